@@ -2,6 +2,7 @@ package main
 
 import (
 	"fmt"
+	"strconv"
 	"go/constant"
 	"go/token"
 	"go/types"
@@ -521,6 +522,34 @@ func (e *Enc) indexInstr(f *frame, st *State, in *ssa.Index) {
 	}
 }
 
+// sub / add fold numeric literals so that constant lengths stay visible.
+func sub(a, b string) string {
+	if b == "0" {
+		return a
+	}
+	x, e1 := strconv.ParseInt(a, 10, 64)
+	y, e2 := strconv.ParseInt(b, 10, 64)
+	if e1 == nil && e2 == nil {
+		return smtInt(x - y)
+	}
+	return fmt.Sprintf("(- %s %s)", a, b)
+}
+
+func add(a, b string) string {
+	if b == "0" {
+		return a
+	}
+	if a == "0" {
+		return b
+	}
+	x, e1 := strconv.ParseInt(a, 10, 64)
+	y, e2 := strconv.ParseInt(b, 10, 64)
+	if e1 == nil && e2 == nil {
+		return smtInt(x + y)
+	}
+	return fmt.Sprintf("(+ %s %s)", a, b)
+}
+
 func (e *Enc) sliceInstr(f *frame, st *State, in *ssa.Slice) Val {
 	x := e.value(f, in.X)
 	var lo, hi, max string
@@ -555,7 +584,7 @@ func (e *Enc) sliceInstr(f *frame, st *State, in *ssa.Slice) Val {
 			max = capT
 			e.oblige("slice", e.site(in), in.Pos(), fmt.Sprintf("(and (<= 0 %s) (<= %s %s) (<= %s %s))", lo, lo, hi, hi, capT), e.safetyProps(), "")
 		}
-		return Val{Sh: sh, Sub: []Val{x.Sub[0], intVal(fmt.Sprintf("(+ %s %s)", x.Sub[1].T, lo)), intVal(fmt.Sprintf("(- %s %s)", hi, lo)), intVal(fmt.Sprintf("(- %s %s)", max, lo))}}
+		return Val{Sh: sh, Sub: []Val{x.Sub[0], intVal(add(x.Sub[1].T, lo)), intVal(sub(hi, lo)), intVal(sub(max, lo))}}
 	case *types.Pointer: // *[N]T
 		at := xt.Elem().Underlying().(*types.Array)
 		loc := e.deref(f, st, x, in.X.Type(), in)
@@ -569,7 +598,7 @@ func (e *Enc) sliceInstr(f *frame, st *State, in *ssa.Slice) Val {
 			hi = n
 		}
 		e.oblige("slice", e.site(in), in.Pos(), fmt.Sprintf("(and (<= 0 %s) (<= %s %s) (<= %s %s))", lo, lo, hi, hi, n), e.safetyProps(), "")
-		return Val{Sh: sh, Sub: []Val{intVal(loc.Base), intVal(lo), intVal(fmt.Sprintf("(- %s %s)", hi, lo)), intVal(fmt.Sprintf("(- %s %s)", n, lo))}}
+		return Val{Sh: sh, Sub: []Val{intVal(loc.Base), intVal(lo), intVal(sub(hi, lo)), intVal(sub(n, lo))}}
 	}
 	panic(unsupported("Slice on " + in.X.Type().String()))
 }
@@ -657,6 +686,7 @@ func (e *Enc) convert(f *frame, st *State, in *ssa.Convert) Val {
 			e.assert(fmt.Sprintf("(= (slen %s) %s)", t, x.Sub[2].T))
 		} else {
 			e.assert(fmt.Sprintf("(and (<= %s (slen %s)) (= (rlen %s) %s))", x.Sub[2].T, t, t, x.Sub[2].T))
+			e.assert(fmt.Sprintf("(=> (> %s 0) (= (runeat %s 0) (select (select %s %s) %s)))", x.Sub[2].T, t, h.Term, x.Sub[0].T, x.Sub[1].T))
 		}
 		return Val{Sh: to, T: t}
 	case from.K == to.K && from.IsLeafKind():
